@@ -1564,13 +1564,13 @@ func TestVerifC19(t *testing.T) {
 		t.Fatal("cannot reach miniredis")
 	}
 
-	kit.Run(t, "C19", "seq-pattern", kit.N(3000, 90000), seqPattern)
-	kit.Run(t, "C19", "seq-random", kit.N(4000, 120000), seqRandom)
-	kit.Run(t, "C19", "seq-outage", kit.N(1600, 40000), seqOutage)
-	kit.Run(t, "C19", "conc-own", kit.N(1500, 45000), concOwn)
-	kit.Run(t, "C19", "conc-stampede", kit.N(600, 18000), concStampede)
-	kit.Run(t, "C19", "conc-shared", kit.N(600, 18000), concShared)
-	kit.Run(t, "C19", "conc-outage", kit.N(500, 15000), concOutage)
+	kit.Run(t, "C19", "seq-pattern", kit.N(3000, 60000), seqPattern)
+	kit.Run(t, "C19", "seq-random", kit.N(4000, 80000), seqRandom)
+	kit.Run(t, "C19", "seq-outage", kit.N(1600, 25000), seqOutage)
+	kit.Run(t, "C19", "conc-own", kit.N(1500, 30000), concOwn)
+	kit.Run(t, "C19", "conc-stampede", kit.N(600, 12000), concStampede)
+	kit.Run(t, "C19", "conc-shared", kit.N(600, 12000), concShared)
+	kit.Run(t, "C19", "conc-outage", kit.N(500, 10000), concOutage)
 
 	kit.UninstallVClock()
 	kit.End()
